@@ -28,7 +28,7 @@ def run(c):
         trace = c.replay
     else:
         trace = c.scratch + "/codec.ndjson"
-        c.run_driver(drv, ["-mode", "codec", "-out", trace, "-n", 500 if c.thorough else 60])
+        c.run_driver(drv, ["-mode", "codec", "-out", trace, "-n", 400 if c.thorough else 45])
     r = _wire.validate_table(c, "WireCodecTrace", "WireCodecTrace.cfg", trace, chunks=6 if c.thorough else 4, min_chunk=100)
     _wire.judge_table(c, r, trace, maxlen=200)
     n = 0
@@ -58,7 +58,7 @@ def run(c):
                     shapes.add(("dec", e["layer"], e["contents"], len(e["in"]) - e["contents"] > 0))
                 else:
                     stats["dec_rejected"] += 1
-                    shapes.add(("rej", e["layer"], min(len(e["in"]), 64)))
+                    shapes.add(("rej", e["layer"], min(e["inlen"], 64)))
     drift = _wire.drift_keys(r.out)
     if drift:
         c.notes.append("model drift (not a verdict): " + "; ".join(drift)[:1000])
